@@ -175,6 +175,24 @@ def main():
     import subprocess
 
     tv = json.loads(subprocess.run([sys.executable, os.path.join(os.path.dirname(os.path.abspath(__file__)), "schema_values.py"), str(chk.seed), str(60 if quick else 1200)], capture_output=True, text=True).stdout or "[]")
+    # fixed part: the types whose items are checked by different code in the traced and the
+    # untraced lowering (Bool / Void / Option inside lists, tuples, pairs and record fields), with
+    # malformed items: wrong constructor index, extra fields, wrong Data kind
+    bad2, t_extra, none_extra = {"c": "2", "f": []}, {"c": "1", "f": [I(42)]}, {"c": "1", "f": [I(1)]}
+    unit, unit1, unit_f = {"c": "0", "f": []}, {"c": "1", "f": []}, {"c": "0", "f": [I(1)]}
+    L = lambda *xs: {"l": list(xs)}
+    fixed = [
+        ("", "List<Bool>", [L(), L(F_, T)], [L(bad2), L(t_extra), L(I(1)), L(T, {"c": "7", "f": []}), I(0), {"m": []}]),
+        ("", "List<Void>", [L(), L(unit, unit)], [L(unit1), L(unit_f), L(unit, I(0))]),
+        ("", "Option<Bool>", [some(T), none], [some(bad2), some(t_extra), none_extra, {"c": "0", "f": []}, {"c": "0", "f": [T, T]}]),
+        ("", "(Bool, Int)", [L(T, I(1))], [L(bad2, I(1)), L(t_extra, I(1)), L(T), L(T, I(1), I(2)), L(I(1), T)]),
+        ("", "Pairs<Bool, Bool>", [{"m": []}, {"m": [[T, F_]]}], [{"m": [[bad2, F_]]}, {"m": [[T, t_extra]]}, L(L(T, F_))]),
+        ("", "List<List<Bool>>", [L(L(T), L())], [L(L(bad2)), L(L(T), L(t_extra)), L(T)]),
+        ("", "List<Option<Int>>", [L(some(I(1)), none)], [L(bad2), L(none_extra), L(some(T)), L({"c": "0", "f": []}), L({"c": "0", "f": [I(1), I(2)]})]),
+        ("pub type Dt {\n  owner: ByteArray,\n  flags: List<Bool>,\n}\n", "Dt", [{"c": "0", "f": [Bt("00"), L(T, F_)]}], [{"c": "0", "f": [Bt("00"), L(bad2)]}, {"c": "0", "f": [Bt("00"), L(t_extra)]}, {"c": "0", "f": [Bt("00")]}, {"c": "0", "f": [Bt("00"), L(T), I(0)]}, {"c": "1", "f": [Bt("00"), L(T)]}]),
+        ("pub type Sw {\n  On { b: Bool, u: Void }\n  Off\n}\n", "List<Sw>", [L({"c": "0", "f": [T, unit]}, {"c": "1", "f": []})], [L({"c": "0", "f": [bad2, unit]}), L({"c": "0", "f": [T, unit1]}), L({"c": "0", "f": [t_extra, unit]}), L({"c": "1", "f": [I(1)]}), L({"c": "2", "f": []})]),
+    ]
+    tv = [{"defs": d, "type": ty, "primitive": False, "conforming": conf, "nonconforming": non} for d, ty, conf, non in fixed] + tv
     cjobs = []
     cmeta = {}
     for ci, t in enumerate(tv):
